@@ -24,6 +24,7 @@ def check(repo, tier="quick"):
     res.rule("C15.a", "position i of a preset-backed table's `parameters` is the VideoParameters key the decoder's preset function assigns from field i of the vc2_data_tables namedtuple")
     res.rule("C15.b", "table keys: dt_key/flag/index are entries of dict_type, vp_key of VideoParameters; dict_type is the context type that reads the flag; level keys equal the validator's keys for that syntax function")
     res.rule("C15.c", "iter_source_parameter_options composes the eight generators in SourceParameters' entry order; colour spec nests primaries/matrix/transfer exactly under index 0")
+    res.rule("C15.e", "accepted under the configured level: each candidate base format is combined only with level-table columns filtered for that base format; defaults and header carry the same candidate")
     res.rule("C15.d", "yielded dictionaries: flag-clear only if the base format already matches; preset only if the preset tuple equals the wanted values; custom values copied from the wanted video parameters; headers built from set_source_defaults of the same base format")
 
     ot = enc_tables.option_tables(repo)
@@ -32,6 +33,10 @@ def check(repo, tier="quick"):
     rule_b(repo, res, ot)
     rule_c(repo, res, ot)
     rule_d(repo, res, ot)
+    from .c16 import level_filter_rule
+
+    level_filter_rule(repo, res, "C15.e")
+    res.floor("C15.e", 1)
     res.floor("C15.a", 4)
     res.floor("C15.b", 40)
     res.floor("C15.c", 3)
